@@ -149,6 +149,9 @@ pub uninterp spec fn res_sym(a: &ResolvingAssignment) -> SymbolIndex;
 //@impl GRM /^impl Production \{?$|^impl Production$/ has=rhs_symbols
 //@  fn rhs_symbols ret=r xbody
 //@  |         ensures r@ == rhs_syms(self), r@.len() == self.rhs@.len(),
+//@  fn rhs_symbol ret=r
+//@  |         requires pos < self.rhs@.len(),
+//@  |         ensures r == rhs_syms(self)[pos as int],
 //@end
 
 // ---- TermVec / NonTermIndex: further instances of create_index! -------------------------------------------------------
